@@ -56,15 +56,18 @@ def _params(draw, allow_types=True):
     """Values are chosen so that an integer-typed scalar is integer-valued."""
     types = {k: (draw(st.sampled_from(TYPES)) if allow_types else "float") for k in ("zm", "z0", "ws", "ustar", "L", "sv")}
     zm = float(draw(st.integers(2, 40))) if _is_int(types["zm"]) else draw(gen.logfl(1.5, 40.0))
+    if _is_int(types["z0"]):
+        zm = max(zm, 12.0)  # an integer-typed roughness length is 1 m: keep the receptor well above it
     stab = draw(st.sampled_from(["stable", "unstable", "neutral"]))
     if _is_int(types["L"]):
         L = float(draw(st.integers(max(5, int(zm)), 2000))) * (-1.0 if stab == "unstable" else 1.0)
     else:
         L = {"stable": 1.0, "unstable": -1.0, "neutral": 1.0}[stab] * (1e6 if stab == "neutral" else zm * draw(gen.logfl(0.5, 200.0)))
     z0 = 1.0 if _is_int(types["z0"]) else zm * draw(gen.logfl(1e-3, 0.1))
-    if _is_int(types["z0"]):
-        zm = max(zm, 12.0 if not _is_int(types["zm"]) else 12.0)
     ustar = 1.0 if _is_int(types["ustar"]) else draw(gen.logfl(0.1, 0.9))
+    # physically consistent by construction: a positive log-law wind speed of at least ~1 u*/kappa
+    while math.log(zm / z0) + _psi(zm / L) < 1.0:
+        L *= 2.0
     zeta = zm / L
     ws = ustar / K * (math.log(zm / z0) + _psi(zeta))
     if _is_int(types["ws"]):
